@@ -2,6 +2,6 @@ SPECIFICATION Spec
 CONSTANTS W = 3
           WS = 2
           Deep = {"int8", "string", "N1", "RPtrOE"}
-          OptSet = {"default", "useall", "export", "exporttop", "useall_export"}
+          OptSet = {"default", "useall", "export", "exporttop", "useall_export", "tng", "tng_export", "tng_exporttop"}
 INVARIANTS Emit EmitPoints
 CHECK_DEADLOCK FALSE
